@@ -28,7 +28,7 @@ func evalExpr(ctx context.Context, v rel.Value) (rel.Value, error) {
 	case rel.String, rel.Bytes:
 		evaluated, err := EvaluateExpr(ctx, ".", val.String())
 		if err != nil {
-			panic(err)
+			return nil, err
 		}
 		return evaluated, nil
 	}
